@@ -87,7 +87,7 @@ def excName : Exc → String
 
 def ghostName : Ghost → String
   | .seqDrop => "seqDrop" | .hookDrop => "hookDrop" | .progDrop => "progDrop"
-  | .raiseDrop => "raiseDrop" | .scopeLeak => "scopeLeak" | .main0Leak => "main0Leak"
+  | .fallback => "fallback" | .noMatchDrop => "noMatchDrop" | .scopeLeak => "scopeLeak" | .main0Leak => "main0Leak"
   | .emptyScopeName => "emptyScopeName" | .sysExit => "sysExit"
 
 def tableOf (std : String) : Option (Table × Cls × Array String) :=
